@@ -80,27 +80,42 @@ def run(cmd, cwd=None, timeout=600, env=None, stdin=None, check=False):
 # --------------------------------------------------------------------------- Go drivers
 
 
-def go_env():
-    return {
-        "GOFLAGS": "",
-        "GOPROXY": "off",
-        "GOWORK": os.path.join(HARNESS, "go.work"),
-        "GOTOOLCHAIN": "auto",
-        "GONOSUMDB": "*",
-        "GONOSUMCHECK": "1",
-        "GOFLAGS_VERIF": "1",
-    }
+WORK_MODULES = [
+    "distsys", "systems/dqueue", "systems/gcounter", "systems/loadbalancer", "systems/locksvc",
+    "systems/nestedcrdtimpl", "systems/pbkvs", "systems/proxy", "systems/raftkvs", "systems/replicatedkv",
+    "systems/shcounter", "systems/shopcart",
+    "pgo/test/files/general/IndexingLocals.tla.gotests", "pgo/test/files/general/NonDetExploration.tla.gotests",
+    "pgo/test/files/general/ProcedureSpaghetti.tla.gotests", "pgo/test/files/general/bug_119.tla.gotests",
+    "pgo/test/files/general/hello.tla.gotests", "pgo/test/files/general/ExprTests.tla.gotests",
+]
 
 
-def build_driver(name, outdir, tags="verif", timeout=900):
-    """Build /verif/harness/cmd/<name> against /repo's current working tree."""
-    # go.work.sum is taken from the repository at every build (never cached)
+def make_gowork(dirpath):
+    """Write a go.work that joins /verif/harness with the modules of REPO's working tree."""
+    os.makedirs(dirpath, exist_ok=True)
+    p = os.path.join(dirpath, "go.work")
+    with open(p, "w") as f:
+        f.write("go 1.24.0\n\nuse (\n\t%s\n" % HARNESS)
+        for m in WORK_MODULES:
+            if os.path.exists(os.path.join(REPO, m, "go.mod")):
+                f.write("\t%s\n" % os.path.join(REPO, m))
+        f.write(")\n")
     src = os.path.join(REPO, "go.work.sum")
     if os.path.exists(src):
-        shutil.copyfile(src, os.path.join(HARNESS, "go.work.sum"))
+        shutil.copyfile(src, os.path.join(dirpath, "go.work.sum"))
+    return p
+
+
+def go_env(gowork):
+    return {"GOFLAGS": "", "GOPROXY": "off", "GOWORK": gowork, "GOTOOLCHAIN": "auto"}
+
+
+def build_driver(name, outdir, tags="verif", timeout=1200):
+    """Build /verif/harness/cmd/<name> against REPO's current working tree (never cached binaries)."""
+    gowork = make_gowork(os.path.join(outdir, "gowork"))
     out = os.path.join(outdir, name)
     rc, o = run(["go", "build", "-tags", tags, "-o", out, "./cmd/" + name], cwd=HARNESS,
-                env=go_env(), timeout=timeout)
+                env=go_env(gowork), timeout=timeout)
     if rc != 0:
         raise Inconclusive("go build of driver %s failed:\n%s" % (name, o[-6000:]))
     return out
